@@ -8,7 +8,13 @@ Contents
 * table enumerators                      gen_tables, table_grid, to_pandas, to_polars, data_pool
 * typed pipeline enumerator              gen_pipelines(depth, tier, two_table), build(spec), describe(spec)
 * catalog restriction (read LIVE)        catalog_methods(backends), catalog_supported(ops, backends)
-* small utilities                        spec_hash, case_hash, run_parallel
+* per-case helpers                       pandas_frames / polars_frames, PrefixCache (real evaluation of pipeline
+                                         prefixes per back end), data_preconditions (window order total?, limit
+                                         cut determined?, convert_records keying, convention region), pick_data
+* small utilities                        spec_hash, case_hash, run_parallel, shard, sort_violations
+
+Companion modules: cbc.wrap (run-time contract wrapper), cbc.sem (model of the back ends with one switch per
+known divergence; used only to NAME the divergences behind a failing case, never to pass one).
 
 Nothing in here uses data_algebra.test_util (nor its pickled result cache).  data_algebra is imported
 normally, so `PYTHONPATH=/some/copy VERIF_REPO=/some/copy` redirects every check to a scratch copy.
@@ -44,14 +50,15 @@ warnings.filterwarnings("ignore")
 # --------------------------------------------------------------------------------------------------
 
 
-def canon_value(v: Any) -> Any:
-    """None/NaN/NaT/pandas.NA -> None; numpy scalars -> Python scalars; everything else unchanged."""
+def canon_value(v: Any, keep_nan: bool = False) -> Any:
+    """None/NaN/NaT/pandas.NA -> None; numpy scalars -> Python scalars; everything else unchanged.
+    keep_nan=True keeps a float NaN as NaN (Polars distinguishes NaN from null; used for classification)."""
     if v is None:
         return None
     if isinstance(v, (bool, int, str)):
         return v
     if isinstance(v, float):
-        return None if v != v else v
+        return (v if keep_nan else None) if v != v else v
     if isinstance(v, numpy.generic):
         try:
             if isinstance(v, (numpy.datetime64, numpy.timedelta64)) and numpy.isnat(v):
@@ -76,8 +83,9 @@ def _is_polars(frame: Any) -> bool:
     return type(frame).__module__.split(".")[0] == "polars"
 
 
-def canon_rows(frame: Any) -> Tuple[List[str], List[Tuple[Any, ...]]]:
+def canon_rows(frame: Any, keep_nan: bool = False) -> Tuple[List[str], List[Tuple[Any, ...]]]:
     """pandas / polars (eager or lazy) frame -> (column names, list of row tuples).
+    keep_nan (Polars frames only): keep float NaN values distinct from null.
 
     Nulls of every flavour are None, numpy scalars are Python scalars.  bool stays bool and int stays
     int in the representation; values_equiv() compares bool/int/float numerically (True == 1)."""
@@ -85,7 +93,7 @@ def canon_rows(frame: Any) -> Tuple[List[str], List[Tuple[Any, ...]]]:
         if hasattr(frame, "collect") and not hasattr(frame, "rows"):
             frame = frame.collect()
         cols = [str(c) for c in frame.columns]
-        rows = [tuple(canon_value(v) for v in r) for r in frame.rows()]
+        rows = [tuple(canon_value(v, keep_nan) for v in r) for r in frame.rows()]
         return cols, rows
     if isinstance(frame, pandas.DataFrame):
         cols = [c for c in frame.columns]
@@ -108,6 +116,8 @@ def values_equiv(a: Any, b: Any, tol: float = 1e-8) -> bool:
         fa, fb = float(a), float(b)
         if fa == fb:
             return True
+        if fa != fa or fb != fb:  # NaN only survives canon_rows(keep_nan=True): NaN == NaN
+            return fa != fa and fb != fb
         if math.isinf(fa) or math.isinf(fb):
             return False
         return abs(fa - fb) <= tol + tol * max(abs(fa), abs(fb))
@@ -121,6 +131,8 @@ def _cell_key(v: Any) -> Tuple:
         return (0, 0.0, "")
     if _is_num(v):
         f = float(v)
+        if f != f:
+            return (1, float("inf"), "nan")
         return (1, round(f, 6) + 0.0, "")  # +0.0 folds -0.0 into 0.0
     if isinstance(v, str):
         return (2, 0.0, v)
@@ -500,6 +512,8 @@ def data_pool(max_rows: int, seed: int, cap: int) -> List[Dict[str, Dict[str, Li
 
 
 def _outcome_raise(e: BaseException) -> Tuple[str, str, str]:
+    if type(e).__name__ == "HarnessError":
+        raise e  # a bug of the harness (contract wrapper) is never reported as a back end raising
     return ("raise", type(e).__name__, str(e)[:300])
 
 
@@ -1207,9 +1221,15 @@ def _record_map(p):
     )
 
 
-def build(spec: Dict[str, Any], leaf: Optional[Callable[[str, List[str]], Any]] = None, upto: Optional[int] = None):
+def build(
+    spec: Dict[str, Any],
+    leaf: Optional[Callable[[str, List[str]], Any]] = None,
+    upto: Optional[int] = None,
+    trace: Optional[List[Any]] = None,
+):
     """Rebuild the data_algebra pipeline described by `spec` (first `upto` steps if given).
-    leaf(name, column_names) may supply the table nodes (e.g. data_algebra.data(...) for ex())."""
+    leaf(name, column_names) may supply the table nodes (e.g. data_algebra.data(...) for ex()).
+    trace: if a list is given, the pipeline object after each step is appended to it."""
     from data_algebra import TableDescription
 
     def mk_leaf(name):
@@ -1253,6 +1273,8 @@ def build(spec: Dict[str, Any], leaf: Optional[Callable[[str, List[str]], Any]] 
             ops = ops.convert_records(_record_map(p))
         else:
             raise ValueError("unknown operator in spec: %r" % (op,))
+        if trace is not None:
+            trace.append(ops)
     return ops
 
 
@@ -1412,9 +1434,10 @@ class PrefixCache:
     """Real evaluation of pipeline prefixes on a back end ('pandas', 'sqlite', 'polars'), cached.
     Used to check data-dependent preconditions on what each back end actually feeds into a step."""
 
-    def __init__(self, spec, data):
+    def __init__(self, spec, data, keep_nan: bool = False):
         self.spec = spec
         self.data = data
+        self.keep_nan = keep_nan  # keep Polars NaN values distinct from null in the canonical rows
         self._cache: Dict[Tuple[int, str, str], Any] = {}
 
     def rows(self, n: int, root: Optional[str] = None, backend: str = "pandas"):
@@ -1433,7 +1456,7 @@ class PrefixCache:
             else:
                 raise ValueError(backend)
             if out[0] == "ok":
-                c, r = canon_rows(out[1])
+                c, r = canon_rows(out[1], keep_nan=(self.keep_nan and backend == "polars"))
                 self._cache[key] = ("ok", c, r)
             else:
                 self._cache[key] = out
